@@ -40,8 +40,8 @@ CHECKS["C03"] = dict(level="exploration", technique="TLA+ Project!Commands / C03
     text="All 4752 TLC-enumerated discovery cases (12 path classes incl. target/.git and their look-alikes, unparsable files, 11 attribute spellings, top-level / mod / impl, visibility, async) are generated by the real CLI in both modes (quick: every path class x attribute x position x parsability combination); TLC compares the set of invoke names with Project!Commands and demands exactly one wrapper each; plus a project located below a directory called target.",
     note="cfg_attr-conditional command attributes are outside the case space. Trusted: TS parser, TLC.", ref="6 (C03)")
 CHECKS["C07"] = dict(level="exploration", technique="TLA+ Project!Reachable (least fixpoint over serde types, Result error arm excluded) as oracle; TLC enumerates type graphs and edge contexts; real CLI; declared names trace-validated by TLC",
-    text="All 512 digraphs on three types x root sets and chain/diamond/fan-out shapes with each edge through each of 20 constructor contexts, rooted at every site through 6 root contexts, with serde and non-serde decoys, are generated as real projects in both modes; TLC checks declared type names = Project!Reachable, once each.",
-    note="Quick tier samples 500 of the 3584 three-node cases and covers every (edge context, site) pair; thorough runs all 7184.", ref="6 (C07)")
+    text="All 512 digraphs on three types x root sets and chain/diamond/fan-out shapes with each edge through each of 20 constructor contexts, rooted at every site through 6 root contexts, with serde and non-serde decoys, and five shapes (chain, diamond, fan-out, cycle, two roots over one child) under all 256 assignments of the command file and the types to four files in the analyser's walk order, are generated as real projects in both modes; TLC checks declared type names = Project!Reachable, once each.",
+    note="Quick tier samples 500 of the 3584 three-node cases and covers every (edge context, site) pair and one file assignment per relative order of the four placements; thorough runs all 3584 + 7920 + 2560.", ref="6 (C07)")
 CHECKS["C09"] = dict(level="model_checking", technique="TLA+ TopoSort DFS step machine model-checked over every iteration order; acyclic TLC-enumerated graphs generated in Zod mode by fresh processes; Output!DefinedBeforeUse judged by TLC on the parsed module",
     text="TLC shows that the DFS ordering emits dependencies first for every acyclic graph on <=3 types under every hash iteration order; the acyclic TLC-enumerated graphs (every DAG on 3 nodes, shapes x edge contexts x root sites) are generated in Zod mode and TLC checks on the parsed types module that no `export const` right-hand side eagerly mentions a schema constant defined later (parameter schemas included).",
     note="Real-binary schedules are sampled (2 / 6 processes per project); order exhaustiveness is in the model.", ref="6 (C09)")
@@ -55,8 +55,8 @@ CHECKS["C04"] = dict(level="exploration", technique="TLA+ Names!ArgKey (heck low
     text="Every sequence of up to 3 parameter classes (value, optional, injected, channel) under both supported parameter cases, with the injected parameter rotated through 11 accepted spellings and the channel through 3, and every snake_case identifier over {a,b,1,_} up to length 4 plus raw identifiers, is generated in both modes; TLC checks that the Params declaration and the object reaching invoke carry exactly the keys Tauri deserialises, omittable iff Option.",
     note="Tauri's macro is not available offline; its key derivation (heck) is transcribed in Names.tla. Bare `Window` without generics is not in the spelling list. Known finding C04-ipc-channel-dropped.", ref="6 (C04)")
 CHECKS["C12"] = dict(level="exploration", technique="TLA+ Project!EventNames / OptionalNames and the Listeners judge; TLC enumerates emit placements x receivers x methods and event names over Tauri's alphabet; real CLI; parsed listeners trace-validated by TLC; payload types judged by TypeLang",
-    text="All 512 TLC-enumerated emit cases (16 placements x 8 receivers x emit/emit_to x literal/non-literal) and all 399 event names over [aB1-/:_] up to length 3, repeated emissions, a project without events and 18 payload forms are generated in both modes; TLC checks one listener per distinct required name, subscribed to exactly that name, legal and unique function identifiers, events.ts presence / re-export, and the payload type (translation of the Rust type where evident, unknown otherwise).",
-    note="Closure bodies and nested fns are optional placements. Known finding C12-untyped-variable-payload (pinned by a unit test).", ref="6 (C12)")
+    text="All 10 010 TLC-enumerated emit cases (10 tail forms inside paths of up to 2 of 19 enclosing frames - 3 in the thorough tier - x 8 receivers x emit/emit_to x literal/non-literal) and all 399 event names over [aB1-/:_] up to length 3, repeated emissions, a project without events and 18 payload forms are generated in both modes; TLC checks one listener per distinct required name, subscribed to exactly that name, legal and unique function identifiers, events.ts presence / re-export, and the payload type (translation of the Rust type where evident, unknown otherwise).",
+    note="Closure bodies, nested fns, async and unsafe blocks, `return e` and conditions are optional placements. Known finding C12-untyped-variable-payload (pinned by a unit test).", ref="6 (C12)")
 CHECKS["C11"] = dict(level="exploration", technique="TLA+ Attrs!Expected / C11_Holds as oracle; TLC enumerates validator shapes, numeric literal classes and messages over character classes; real CLI in Zod mode; parsed schema chains trace-validated by TLC",
     text="476 validator shapes x applicable field type classes, 63 numeric bound pairs and every message over 17 character classes up to length 3 (5219; quick: length <=2 + 500 sampled) are generated in Zod mode; the method chain of each field schema is parsed (bounds as exact numbers under IEEE-double semantics, messages decoded from the JS literal) and TLC checks that the constraint calls are exactly the declared ones and that sibling fields carry none.",
     note="Known finding C11-email-url-shared-message. Zod's run-time behaviour is not executed (zod is not available offline); the chain is compared syntactically.", ref="6 (C11)")
@@ -64,7 +64,7 @@ CHECKS["C01"] = dict(level="exploration", technique="strict TypeScript-subset pa
     text="Every file generated for adversarial projects (TLC-enumerated serde attribute lists and identifiers under all conventions, 399 event names, validator messages over 17 character classes, parameter identifiers under all 8 default conventions, type expressions at every site with mapping targets, JS reserved words in every name position, non-ASCII names, exotic Rust syntax; both modes) is parsed item by item; TLC requires no unparsable item, legal identifiers for all declared names and well-formed property keys.",
     note="Validity is judged by the harness parser (tsc is not available offline): a construct the parser wrongly accepts weakens the check. Event names with characters Tauri forbids are outside the quantifier.", ref="6 (C01)")
 CHECKS["C15"] = dict(level="exploration", technique="Trace_Pipeline termination contract (RunEnd in {ok, err}) and isolation relation over runs of the real code on exotic-syntax sources, character-level fuzzed attribute payloads and a real-world corpus (in-process driver with panic capture)",
-    text="Runs of the real CLI on grammar-generated exotic items and fuzzed attribute payloads, and of the library entry point on every .rs file of the repository and of the vendored registry sources (quick: seeded 2500-file sample; thorough: all, with truncations and single-character mutations) are recorded as behaviours; Trace_Pipeline rejects any run that does not end in ok/err, and checks that adding unparsable files leaves the output of the other files identical.",
+    text="Runs of the real CLI on grammar-generated exotic items, character-level fuzzed attribute payloads and structurally fuzzed validate / serde / command attribute lists (valid token trees that are not attribute syntax), and of the library entry point on every .rs file of the repository and of the vendored registry sources (quick: seeded 2500-file sample; thorough: all, with truncations and single-character mutations) are recorded as behaviours; Trace_Pipeline rejects any run that does not end in ok/err, and checks that adding unparsable files leaves the output of the other files identical.",
     note="Totality over all Rust sources is a sampling claim; the specification contributes the termination and isolation contracts only.", ref="6 (C15)")
 NOT_YET = {}
 def main():
